@@ -148,6 +148,15 @@ func genC16(g *Gen, tier string, idx int) *wire.Scenario {
 		if g.P(30) {
 			script = append(script, tok(fmt.Sprint(g.Range(2, 4)), "vi-arg-digit"))
 		}
+		if g.P(12) {
+			// more kills than the editor keeps registers for, each a separate x somewhere else
+			script = append(script, tok("0", "vi-move"))
+			for k := 0; k < g.Range(10, 13); k++ {
+				x.Kills = append(x.Kills, len(script))
+				script = append(script, tok(g.Cat.ShortSeqFor(km, cmd), cmd))
+				script = append(script, tok("l", "vi-move"))
+			}
+		}
 		x.Kills = append(x.Kills, len(script))
 		script = append(script, tok(g.Cat.ShortSeqFor(km, cmd), cmd))
 		x.Yank = len(script)
@@ -156,6 +165,19 @@ func genC16(g *Gen, tier string, idx int) *wire.Scenario {
 		nk := 1
 		if g.P(25) {
 			nk = g.Range(2, 4)
+		}
+		if g.P(12) {
+			// more kills than the editor keeps registers for: type a word, kill it, again and again
+			for k := 0; k < g.Range(10, 13); k++ {
+				script = append(script, tok(g.Cat.ShortSeqFor(km, "end-of-line"), "move"))
+				for _, r := range " w" + string(rune('a'+k)) {
+					script = append(script, tok(string(r), "self-insert"))
+				}
+				x.Kills = append(x.Kills, len(script))
+				cmd := Pick(g, []string{"unix-word-rubout", "backward-kill-word"})
+				script = append(script, tok(g.Cat.ShortSeqFor(km, cmd), cmd))
+				script = append(script, tok(g.Cat.ShortSeqFor(km, "beginning-of-line"), "move"))
+			}
 		}
 		for k := 0; k < nk; k++ {
 			cmd := Pick(g, emacsKills)
@@ -432,7 +454,9 @@ func genC18(g *Gen, tier string, idx int) *wire.Scenario {
 	n := g.Range(1, 10)
 	if vi {
 		script = append(script, tok("\x1b", "vi-movement-mode"))
-		pool := []string{"h", "l", "w", "b", "e", "0", "$", "x", "X", "~", "p", "P", "D", "dw", "db", "yw", "cw", "i", "a", "A", "I", "rz", "fa", ";", "u"}
+		pool := []string{"h", "l", "w", "b", "e", "0", "$", "x", "X", "~", "p", "P", "D", "dw", "db", "yw", "cw", "i", "a", "A", "I", "rz", "fa", ";", "u",
+			// operators with the text objects that take a delimiter key
+			"di(", "da(", "di\"", "da\"", "yi(", "di'", "di[", "da{", "yi\"", "diw", "daw", "yiW", "vi(d", "va\"y"}
 		for i := 0; i < n; i++ {
 			k := Pick(g, pool)
 			switch k {
